@@ -571,7 +571,9 @@ pub fn run(which: &str, ctx: &Ctx, sink: &mut Sink) {
 
     if which == "C07" || which == "C08" {
         // ---- exhaustive two-level shapes x widths
-        for sh in shapes::two_level() {
+        let mut all_shapes = shapes::two_level();
+        all_shapes.extend(shapes::wrapped_two_level());
+        for sh in all_shapes {
             idx += 1;
             if !ctx.mine(idx) {
                 continue;
